@@ -364,6 +364,25 @@ class Module:
                 print(f"  {c.kind}:".ljust(20), f'"{c.name}"')
 
 
+class F32Bits(float):
+    """An f32 constant whose exact bit pattern must be kept.
+
+    Instruction arguments hold f32 constants as Python floats (doubles).
+    Converting a signalling NaN from f32 to double and back sets its quiet
+    bit, so such a constant would change when a binary module is read and
+    written again. The binary reader uses this float subclass for bit patterns
+    that do not survive the conversion; the binary writer emits ``raw32``.
+    """
+
+    def __new__(cls, value, raw32):
+        obj = super().__new__(cls, value)
+        obj.raw32 = bytes(raw32)
+        return obj
+
+    def __getnewargs__(self):  # copy / pickle support
+        return (float(self), self.raw32)
+
+
 class Instruction(WASMComponent):
     """Class ro represent an instruction (an opcode plus arguments)."""
 
